@@ -85,6 +85,7 @@
 #include "QXmppSceEnvelope_p.h"
 #include "QXmppTransferManager.h"
 // src/base/compat (deprecated API that is still compiled and exported)
+#undef QXMPPPUBSUBIQ_H   // same include guard as QXmppPubSubIq_p.h, different class
 #include "compat/QXmppPubSubIq.h"
 #include "compat/QXmppPubSubItem.h"
 #include "compat/QXmppSessionIq.h"
@@ -186,10 +187,10 @@ Codec formBased(const char *name, std::vector<std::string> covers)
              } };
 }
 
-inline bool isStanza(const QDomElement &e, const char16_t *tag)
-{
-    return e.tagName() == QStringView(tag);
-}
+// QXmppDataFormBase::fromDataForm is protected and QXmppPubSubMetadata has no public wrapper: reach it through a derived class
+struct MetadataAccess : QXmppPubSubMetadata {
+    static bool from(const QXmppDataForm &f, QXmppPubSubMetadata &m) { return QXmppDataFormBase::fromDataForm(f, m); }
+};
 
 inline std::vector<Codec> buildTable()
 {
@@ -359,7 +360,6 @@ inline std::vector<Codec> buildTable()
 
     // ---------------------------------------------------------------- static std::optional<T> fromDom()
     t.push_back(fromDom<QXmppFallback>("QXmppFallback", { "QXmppFallback" }));
-    t.push_back(fromDom<QXmppFileSourcesAttachment>("QXmppFileSourcesAttachment", { "QXmppFileSourcesAttachment" }));
     t.push_back(fromDom<Sasl::Auth>("Sasl::Auth", { "QXmpp::Private::Sasl::Auth" }));
     t.push_back(fromDom<Sasl::Challenge>("Sasl::Challenge", { "QXmpp::Private::Sasl::Challenge" }));
     t.push_back(fromDom<Sasl::Failure>("Sasl::Failure", { "QXmpp::Private::Sasl::Failure" }));
@@ -406,7 +406,13 @@ inline std::vector<Codec> buildTable()
     // ---------------------------------------------------------------- data-form based option/config classes
     t.push_back(formBased<QXmppPubSubNodeConfig>("QXmppPubSubNodeConfig", {}));
     t.push_back(formBased<QXmppPubSubPublishOptions>("QXmppPubSubPublishOptions", {}));
-    t.push_back(formBased<QXmppPubSubMetadata>("QXmppPubSubMetadata", {}));
+    t.push_back({ "QXmppPubSubMetadata", {}, true, false,
+                  [](const QDomElement &e) { QXmppDataForm f; f.parse(e); QXmppPubSubMetadata m; return MetadataAccess::from(f, m); },
+                  [](const QDomElement &e) {
+                      QXmppDataForm f; f.parse(e);
+                      QXmppPubSubMetadata m;
+                      return MetadataAccess::from(f, m) ? ser(m.toDataForm()) : QByteArray();
+                  } });
     t.push_back(formBased<QXmppPubSubSubAuthorization>("QXmppPubSubSubAuthorization", {}));
     t.push_back(formBased<QXmppPubSubSubscribeOptions>("QXmppPubSubSubscribeOptions", {}));
 
